@@ -10,9 +10,10 @@ REPLY_KINDS = ("query", "prepare", "execute", "init", "fieldlist", "ping")
 
 
 def mk_case(cid, cmds, scripts=(), lim=U24_MAX, chunks=None, user=b"jon", auth="ok", tls=0, dinit=0,
-            hs=None, hs_seq=1, eof=True, quit=False, cap=2048):
+            hs=None, hs_seq=1, eof=True, quit=False, cap=2048, wcap=0):
     """cmds: list of (kind, payload[, seq]).  The whole client stream is framed with `lim`."""
     c = Case(cid, lim=lim, tls=tls, auth=auth, dinit=dinit)
+    c.wcap = wcap
     hs_payload = hs if hs is not None else hs41(user)
     stream = frame(hs_payload, hs_seq, lim)
     meta = []
